@@ -533,7 +533,10 @@ class Peer:
             # try to establish the outgoing connection
             self.fsm.change(FSM.ACTIVE)
 
-            if getenv().bgp.passive:
+            if getenv().bgp.passive or self.neighbor.session.passive:
+                # `passive true` of the neighbor was only looked at before the peer task is first started
+                # (Reactor.active_peers): after its first session the neighbor opened outgoing connections like any
+                # other, and the connection its peer opened meanwhile was closed when that attempt failed
                 while not self.proto:
                     await asyncio.sleep(0)  # Yield control like _NOP
 
